@@ -768,6 +768,86 @@ pub fn c16cli(a: &Args) -> Report {
             None
         })
         .collect();
+    // ENVIRONMENTS: the same input and flags under every single deviation from the default environment
+    // (working directory, file name, HOME / TMPDIR / LANG / TZ / RUST_LOG / RUST_BACKTRACE / SOURCE_DATE_EPOCH /
+    // CARGO_MANIFEST_DIR, an emptied environment, the file's modification time, PATH without / with a
+    // failing rustfmt): whenever the invocation SUCCEEDS its output is byte-identical to the baseline.
+    // (--format may fail where the formatter is missing; it must not succeed with something else.)
+    {
+        let have_rustfmt = std::process::Command::new("rustfmt").arg("--version").output().map(|o| o.status.success()).unwrap_or(false);
+        let envdir = work.join("env");
+        let other = envdir.join("other cwd");
+        let nofmt = envdir.join("no_rustfmt");
+        let badfmt = envdir.join("bad_rustfmt");
+        for d in [&other, &nofmt, &badfmt] {
+            std::fs::create_dir_all(d).unwrap();
+        }
+        {
+            use std::os::unix::fs::PermissionsExt;
+            let f = badfmt.join("rustfmt");
+            std::fs::write(&f, "#!/bin/sh\ncat > /dev/null\nexit 1\n").unwrap();
+            std::fs::set_permissions(&f, std::fs::Permissions::from_mode(0o755)).unwrap();
+        }
+        let path_var = std::env::var("PATH").unwrap_or_default();
+        let mut n_env = 0u64;
+        for (i, (name, spec)) in defs.iter().enumerate().filter(|(i, _)| i % 9 == 0).take(12) {
+            let src = spec.render("T", "Logos, Debug");
+            let inp = envdir.join(format!("e{i}.rs"));
+            std::fs::write(&inp, &src).unwrap();
+            for fmt in [false, true] {
+                if fmt && !have_rustfmt {
+                    continue;
+                }
+                let base_args: Vec<String> = if fmt { vec![inp.to_str().unwrap().into(), "--format".into()] } else { vec![inp.to_str().unwrap().into()] };
+                let base = Command::new(&cli).args(&base_args).output().expect("run logos-cli");
+                if !base.status.success() {
+                    continue;
+                }
+                // (label, input path, cwd, env additions, clear env first)
+                let copy = other.join("a name with spaces.rs");
+                std::fs::write(&copy, &src).unwrap();
+                let _ = Command::new("touch").args(["-d", "1999-12-31 23:59:59", copy.to_str().unwrap()]).status();
+                let devs: Vec<(&str, PathBuf, PathBuf, Vec<(&str, String)>, bool)> = vec![
+                    ("another working directory", inp.clone(), other.clone(), vec![], false),
+                    ("a copy of the input under another name, in another directory, with an old modification time", copy.clone(), envdir.clone(), vec![], false),
+                    ("HOME and TMPDIR elsewhere", inp.clone(), envdir.clone(), vec![("HOME", other.to_str().unwrap().into()), ("TMPDIR", other.to_str().unwrap().into())], false),
+                    ("LANG / LC_ALL / TZ set", inp.clone(), envdir.clone(), vec![("LANG", "de_DE.UTF-8".into()), ("LC_ALL", "tr_TR.UTF-8".into()), ("TZ", "Pacific/Kiritimati".into())], false),
+                    ("RUST_LOG / RUST_BACKTRACE / SOURCE_DATE_EPOCH / CARGO_MANIFEST_DIR set", inp.clone(), envdir.clone(), vec![("RUST_LOG", "trace".into()), ("RUST_BACKTRACE", "full".into()), ("SOURCE_DATE_EPOCH", "1".into()), ("CARGO_MANIFEST_DIR", other.to_str().unwrap().into()), ("LOGOS_DEBUG", "1".into())], false),
+                    ("an environment holding PATH only", inp.clone(), envdir.clone(), vec![("PATH", path_var.clone())], true),
+                    ("PATH with an empty directory in front", inp.clone(), envdir.clone(), vec![("PATH", format!("{}:{path_var}", nofmt.to_str().unwrap()))], false),
+                    ("PATH without rustfmt", inp.clone(), envdir.clone(), vec![("PATH", nofmt.to_str().unwrap().into())], false),
+                    ("PATH with a failing rustfmt", inp.clone(), envdir.clone(), vec![("PATH", badfmt.to_str().unwrap().into())], false),
+                ];
+                for (label, input, cwd, envs, clear) in devs {
+                    let mut c = Command::new(&cli);
+                    c.arg(input.to_str().unwrap());
+                    if fmt {
+                        c.arg("--format");
+                    }
+                    c.current_dir(&cwd);
+                    if clear {
+                        c.env_clear();
+                    }
+                    for (k, v) in &envs {
+                        c.env(k, v);
+                    }
+                    let o = c.output().expect("run logos-cli");
+                    n_env += 1;
+                    if o.status.success() && o.stdout != base.stdout && rep.violations.len() < 12 {
+                        rep.violations.push(Violation {
+                            key: format!("ENVIRONMENT-DEPENDENT/{name}/{fmt}/{label}"),
+                            tag: "ENVIRONMENT-DEPENDENT".into(),
+                            case: format!("{name}{}: {label}", if fmt { " --format" } else { "" }),
+                            detail: format!("the invocation succeeds but prints {} bytes that differ from the {} bytes printed in the default environment", o.stdout.len(), base.stdout.len()),
+                            replay: json!({"kind": "c16cli", "tag": "ENVIRONMENT-DEPENDENT", "name": name}),
+                        });
+                    }
+                }
+            }
+        }
+        rep.count("environment_deviation_runs", n_env);
+        rep.count("traces_validated_against_impl", n_env);
+    }
     for r in results {
         rep.count("programs", 1);
         rep.count("supplement_process_seed_samples", runs as u64);
